@@ -5,7 +5,11 @@ from ..summary import Item, items, is_ok, bv
 from . import inherit_spec as IS
 
 ID = 'C06'
-ENGINE_B = {'template': 't_inherit', 'kinds': ['accessor_', 'dispatch_', 'layout_'], 'max_quick': 12, 'max_thorough': 64}
+# fixed witnesses: shapes that must always be among the sampled ones (second-level type with a second base that owns a
+# shallower vftable pointer; inherited and own tables at both levels)
+ENGINE_B = {'template': 't_inherit', 'kinds': ['accessor_', 'dispatch_', 'layout_'], 'max_quick': 12, 'max_thorough': 64,
+            'fixed': [[8, 1, 1, 1, 0, 0, 1, 0, 0, 0, 0, 0, 1, 0, 0, 0, 1], [8, 1, 1, 1, 1, 0, 1, 0, 0, 0, 0, 0, 1, 0, 0, 0, 1],
+                      [8, 0, 1, 1, 2, 0, 1, 0, 0, 0, 0, 0, 1, 0, 0, 0, 1]]}
 EXPLANATION = ('Template t_inherit (bases A and B each with or without a vftable block, derived D with one or two #[base] fields and no / a '
                'prefix-repeating / a non-repeating vftable block, one of eight single-slot mutations of the repeated prefix — rename, '
                'parameter type, return type, receiver mutability, calling convention, dropped slot, extra parameter, swapped slots — and '
@@ -33,20 +37,21 @@ def assume(a, ps, sub):
     A.append(z3.Implies(a[9] == 0, a[11] == 0))
     A.append(z3.Implies(z3.And(a[1] == 0, z3.Or(a[4] != 1, a[5] == 5)), a[13] == 0))
     if sub == 'tables':
-        A += [a[8] == 0, a[9] == 0, a[10] == 0, a[11] == 0, z3.Or(a[13] == 0, a[13] == 3, a[13] == 1), a[14] == 0]
+        A += [a[8] == 0, a[9] == 0, a[10] == 0, a[11] == 0, z3.Or(a[13] == 0, a[13] == 3, a[13] == 1), a[14] == 0, a[15] == 0, z3.ULE(a[16], 1), z3.Implies(a[6] == 0, a[16] == 0)]
     else:
-        A += [a[5] == 0, a[13] == 0, a[7] == 0, z3.ULE(a[14], 1), z3.Implies(a[4] != 1, a[14] == 0)]
+        A += [a[5] == 0, a[13] == 0, a[7] == 0, z3.ULE(a[14], 1), z3.Implies(a[4] != 1, a[14] == 0), z3.ULE(a[15], 1), z3.Implies(a[3] == 0, a[15] == 0),
+              z3.ULE(a[16], 1), z3.Implies(a[6] == 0, a[16] == 0), z3.Implies(a[16] != 0, a[14] == 0)]
     return A
 
 
 def slices(tier, rng):
-    return [Slice('tables-ps%d' % ps, 't_inherit', 15, lambda a, ps=ps: assume(a, ps, 'tables'), opts={'must_reach': ['ok', 'err']})
+    return [Slice('tables-ps%d' % ps, 't_inherit', 17, lambda a, ps=ps: assume(a, ps, 'tables'), opts={'must_reach': ['ok', 'err']})
             for ps in (4, 8)]
 
 
 def pinned(a, wit):
     """negation of: the path condition admits only the witness description"""
-    return z3.Or(*[a[i] != z3.BitVecVal(wit[i], 64) for i in range(15)])
+    return z3.Or(*[a[i] != z3.BitVecVal(wit[i], 64) for i in range(17)])
 
 
 def fn_sig(f):
@@ -103,7 +108,7 @@ def leaf_queries(I, a, leaf, py, sl):
         else: compare_tables(py, M, problems)
     else:
         if M['accept']: problems.append('rejected although the reference accepts')
-    this = z3.And(*[a[i] == z3.BitVecVal(wit[i], 64) for i in range(15)])
+    this = z3.And(*[a[i] == z3.BitVecVal(wit[i], 64) for i in range(17)])
     qs.append(Query('outcome-matches-reference:' + ('; '.join(problems)[:200] if problems else 'ok'),
                     this if problems else z3.BoolVal(False)))
     return qs
